@@ -1351,6 +1351,15 @@ def b_type(interp, args, kwargs):
 
 
 def b_iter(interp, args, kwargs):
+    if len(args) == 2 and getattr(interp, 'concrete_iter2', False):
+        # the rule scripts what the callable returns: call until sentinel
+        items = []
+        for _ in range(64):
+            v = interp.call(args[0], [])
+            if interp.truth(_compare(interp, '==', v, args[1])):
+                return ListV(items)
+            items.append(v)
+        raise Inexact('iter(callable, sentinel) did not reach the sentinel')
     if len(args) == 2:
         # iter(callable, sentinel): one symbolic call shows what is produced
         produced = interp.call(args[0], [])
@@ -1385,6 +1394,26 @@ def b_next(interp, args, kwargs):
                     return args[1]
                 raise
     return NotImplemented
+
+
+def b_suppress(interp, args, kwargs):
+    """contextlib.suppress(*exceptions)"""
+    classes = list(args)
+    o = Obj(None, {}, label='suppress')
+    o.fields['__enter__'] = AbsFunc('__enter__', lambda i, a, k: K(None))
+
+    def exit_(i, a, k):
+        if isinstance(a[0], K) and a[0].v is None:
+            return K(False)
+        for c in classes:
+            r = exc_is_subclass(a[0], c) if not isinstance(a[0], T) else None
+            if r:
+                return K(True)
+            if r is None:
+                return T('caught', i.termify(a[1]), i.termify(c))
+        return K(False)
+    o.fields['__exit__'] = AbsFunc('__exit__', exit_)
+    return o
 
 
 def b_print(interp, args, kwargs):
@@ -1564,6 +1593,7 @@ BUILTINS = {
     'set': b_set, 'sorted': b_sorted, 'all': b_all, 'any': b_any,
     'getattr': b_getattr, 'hasattr': b_hasattr, 'type': b_type,
     'iter': b_iter, 'print': b_print, 'next': b_next,
+    'contextlib.suppress': b_suppress,
     'struct.unpack': b_struct_unpack, 'struct.calcsize': b_struct_calcsize,
     'struct.unpack_from': b_struct_unpack_from,
     're.compile': b_re_compile,
